@@ -670,6 +670,10 @@ def rule_q5(ctx, facts):
 
 
 def run(ctx, facts):
+    ctx.rule("Q7", "lock -> re-validate the head -> only then link / unlink / count (rule L1 of C01): a removal made on a bin that a resize has "
+                   "already split is counted but its copy survives in the new table", floor=11)
+    from .rules_c01 import rule_l1
+    rule_l1(ctx, facts, rule="Q7")
     ctx.rule("Q6", "entries are linked / unlinked and bins replaced only under the bin lock (rule L2 of C01): otherwise an insert can land in a bin "
                    "that is being replaced, is counted, and is found by neither lookup nor iteration", floor=30)
     from .rules_c01 import rule_l2
